@@ -24,12 +24,12 @@ func (C05) Plan(tier string) core.Plan {
 
 func (C05) Info() core.Info {
 	return core.Info{
-		Rule: "worlds in class (a): every converter has <=1 input value, with arbitrary cycles, bidirectional pairs and multi-output converters, or class (b): multi-input converters without cyclic dependencies, each firing in the EXPECT fixpoint; derivable (planned) and broken variants. Fault-free. Oracle 1 (completeness): target EXPECT-satisfiable => Call returns no error. Oracle 2 (stability): the same world under 10-48 seeded iteration-order schedules (canonical, reverse, rotate, uniform, mixed, adversarial single site) yields one outcome class. Non-trivial: >=2 converters; distinct = distinct (world shape, event-log hash)",
+		Rule: "worlds in class (a): every converter has <=1 input value, with arbitrary cycles, bidirectional pairs and multi-output converters, or class (b): multi-input converters without cyclic dependencies, each firing in the EXPECT fixpoint; derivable (planned) and broken variants; a fault-free batch and a batch in which some converters fail at their k-th execution. Oracle 1 (completeness): target EXPECT-satisfiable => Call returns no error, or (faulty batch only) exactly an injected converter error. Oracle 2 (stability, fault-free batch): the same world under 10-48 seeded iteration-order schedules (canonical, reverse, rotate, uniform, mixed, adversarial single site) yields one outcome class. Non-trivial: >=2 converters; distinct = distinct (world shape, event-log hash)",
 		Assumptions: []string{
 			"EXPECT under-approximates what the documentation promises; between EXPECT and PERMIT neither success nor failure is demanded",
 			"converter dependency for class (b) is judged with PERMIT (conservative: more edges, fewer worlds qualify)",
 		},
-		Probes:    []string{"c05_class_a", "c05_class_b", "c05_must_succeed", "c05_cyclic_class_a", "c05_chain_depth_ge3", "c05_underivable_stable", "s1_nonidentity_perms"},
+		Probes:    []string{"c05_class_a", "c05_class_b", "c05_must_succeed", "c05_cyclic_class_a", "c05_chain_depth_ge3", "c05_underivable_stable", "c05_injected_error_reported", "s1_nonidentity_perms"},
 		Real:      realComponents,
 		Simulated: simComponents,
 	}
@@ -45,13 +45,26 @@ func (C05) Gen(r *simrt.RNG, tier string) core.Case {
 	if r.Chance(1, 5) {
 		breakWorld(r, &w)
 	}
+	// faulty batch: some converters fail; a derivable call may then only report such an error
+	if r.Chance(1, 4) {
+		for pi := 1; pi < len(w.Parties); pi++ {
+			if w.Parties[pi].HasErr && r.Chance(1, 2) {
+				w.Faults = append(w.Faults, world.Fault{Kind: "conv_error", Party: pi, Nth: 1 + r.Intn(2)})
+			}
+		}
+	}
 	return RCase{W: w}
 }
 
 // c05Class returns "a", "b" or "".
 func c05Class(w *world.World) string {
-	if len(w.Ops) != 1 || w.Ops[0].Kind != world.OpCall || len(w.Faults) != 0 {
+	if len(w.Ops) != 1 || w.Ops[0].Kind != world.OpCall {
 		return ""
+	}
+	for _, f := range w.Faults {
+		if f.Kind != "conv_error" {
+			return ""
+		}
 	}
 	v := model.ViewOf(w, 0)
 	if v.HasGen || v.HasNilOpt || v.HasBadConv {
@@ -118,9 +131,13 @@ func (C05) Run(c core.Case, ctx *core.Ctx) []core.Violation {
 		switch {
 		case !res.Returned:
 			oc = "no-return"
+		case res.ErrKind == "injected":
+			oc = "ok" // "succeeds (or reports the error of a converter that failed)"
+			ctx.St.Inc("c05_injected_error_reported")
 		case res.Err != nil:
 			oc = "error"
 		}
+		faulty := len(w.Faults) > 0
 		if _, seen := firstOf[oc]; !seen {
 			firstOf[oc] = k
 		}
@@ -141,12 +158,13 @@ func (C05) Run(c core.Case, ctx *core.Ctx) []core.Violation {
 				}
 			}
 		}
+		_ = faulty
 		if len(view.Convs) >= 2 {
 			ctx.MarkNontrivial(sh, sim)
 		}
 		finish(ctx, rt, sim)
 	}
-	if len(outcomes) > 1 {
+	if len(outcomes) > 1 && len(w.Faults) == 0 {
 		out = append(out, core.Violation{Class: "outcome-depends-on-iteration-order", Site: "Call",
 			Detail: fmt.Sprintf("class (%s) world: outcomes over %d schedules %v (first schedule of each: %v)", class, ctx.NumSchedules(), outcomes, firstOf)})
 	} else if !must && outcomes["error"] > 0 {
